@@ -249,7 +249,8 @@ SetDTok(h, t) == /\ Open("descriptor") /\ InD(h)
                       /\ tx.d[i].op # "del" /\ tx.d[i].tok # t
                       /\ tx' = Op([tx EXCEPT !.d[i].tok = t])
                  /\ UNCHANGED <<m, ntx>>
-                 /\ Log([act |-> "SetDescriptorTok", h |-> h, t |-> t, res |-> "ok"])
+                 /\ Log([act |-> "SetDescriptorTok", h |-> h, t |-> t, res |-> "ok",
+                         sit |-> {"I:" \o Kind[h] \o ":" \o tx.d[Idx(tx.d, "h", h)].op}])   \* in-place change of a handed-out descriptor
 
 \* API precondition (not checked by the code): the parent exists - in the MDIB and not below a descriptor that
 \* this transaction deletes, or created earlier in this transaction
